@@ -16,10 +16,8 @@ Definition default_level : ecl := ecl_of_idx (N.to_nat default_ecl).
 
 (* configuration-level safety: every index, slice range, subtraction and debug assertion whose outcome depends only
    on (version, level, mask) -- checked for all configurations in Proofs/ConfigSafe.v *)
-Definition config_safe (v : nat) (e : ecl) : bool :=
+Definition geom_safe (v : nat) : bool :=
   let n := version_size v in
-  let gen := get_polynomial v e in
-  let '(c1, s1, c2, s2) := ecc_groups e v in
   negb (alignment_panics v)
   && writes_in_range n (blank_writes v)
   && writes_in_range n (format_writes n 0)
@@ -27,12 +25,17 @@ Definition config_safe (v : nat) (e : ecl) : bool :=
   && forallb (fun x => 1 <=? x) (place_xs n)
   && (snd (place_data n (blank v) []) =? 8 * max_bytes v + missing_bits v)%N
   && forallb (fun mk => forallb (in_sqb n) (mask_coords n mk)) all_masks
-  && (1 <=? length gen)
+  && (N.to_nat (max_bytes v) <? N.to_nat interleave_buf)
+  && (n * n <=? N.to_nat (qr_max_width * qr_max_width))
+  && (2 <=? n).
+Definition layout_safe (v : nat) (e : ecl) : bool :=
+  let gen := get_polynomial v e in
+  let '(c1, s1, c2, s2) := ecc_groups e v in
+  (1 <=? length gen)
   && (N.to_nat (N.max s1 s2) + length gen <=? N.to_nat division_top)
   && (N.to_nat (data_codewords v e) + (length gen - 1) * N.to_nat (c1 + c2) <=? N.to_nat interleave_buf)
-  && (N.to_nat (c1 * s1 + c2 * s2) <=? N.to_nat (max_bytes v * compact_alloc_mul))
-  && (N.to_nat (max_bytes v) <? N.to_nat interleave_buf)
-  && (n * n <=? N.to_nat (qr_max_width * qr_max_width)).
+  && (N.to_nat (c1 * s1 + c2 * s2) <=? N.to_nat (max_bytes v * compact_alloc_mul)).
+Definition config_safe (v : nat) (e : ecl) : bool := geom_safe v && layout_safe v e.
 
 Definition build_matrix (input : list N) (e : ecl) (m : mode) (v : nat) (forced_mask : option nat) : result qrcode :=
   match encode_panic input e m v with
@@ -45,26 +48,52 @@ Definition build_matrix (input : list N) (e : ecl) (m : mode) (v : nat) (forced_
     Ok {| q_size := version_size v; q_mat := mat; q_version := v; q_ecl := e; q_mask := mask; q_mode := m |}
   end.
 
-Definition build (input : list N) (o : options) : result qrcode :=
+(* the same without re-evaluating the configuration check (equal to build_matrix whenever config_safe holds,
+   which Proofs/GeomSafe.v shows for all 40 x 4 configurations); this is what the extracted driver runs *)
+Definition build_matrix_unchecked (input : list N) (e : ecl) (m : mode) (v : nat) (forced_mask : option nat) : result qrcode :=
+  match encode_panic input e m v with
+  | Some code => Panic code
+  | None =>
+    let data := cdata (encode input e m v) in
+    let st := structure_buffer data e v in
+    let '(mat, mask) := place_on_matrix v st e forced_mask in
+    Ok {| q_size := version_size v; q_mat := mat; q_version := v; q_ecl := e; q_mask := mask; q_mode := m |}
+  end.
+
+(* QRCode::new: mode, level and version in effect, or one of the two documented errors *)
+Definition resolve (input : list N) (o : options) : result (mode * ecl * nat) :=
   let m := match o_mode o with Some m => m | None => best_encoding input end in
   let e := match o_ecl o with Some e => e | None => default_level end in
   match version_get m e (N.of_nat (length input)) with
   | None => ErrEncodedData
   | Some vmin =>
       match o_version o with
-      | Some uv => if vmin <=? uv then build_matrix input e m uv (o_mask o) else ErrSpecifiedVersion
-      | None => build_matrix input e m vmin (o_mask o)
+      | Some uv => if vmin <=? uv then Ok (m, e, uv) else ErrSpecifiedVersion
+      | None => Ok (m, e, vmin)
       end
   end.
+
+Definition build_with (bm : list N -> ecl -> mode -> nat -> option nat -> result qrcode) (input : list N) (o : options) : result qrcode :=
+  match resolve input o with
+  | Ok (m, e, v) => bm input e m v (o_mask o)
+  | ErrEncodedData => ErrEncodedData
+  | ErrSpecifiedVersion => ErrSpecifiedVersion
+  | Panic c => Panic c
+  end.
+Definition build := build_with build_matrix.
+Definition build_unchecked := build_with build_matrix_unchecked.
 
 (* what the hook recorder observes during a successful build: the (mask, score, candidate) triples of the selection loop
    (the loop runs whether or not a mask is forced) *)
 Definition build_trace (input : list N) (o : options) : list (nat * N * qmat) :=
-  match build input o with
-  | Ok q =>
-      let v := q_version q in
-      let n := version_size v in
-      let data := cdata (encode input (q_ecl q) (q_mode q) v) in
-      select_trace n (fst (place_data n (blank v) (structure_buffer data (q_ecl q) v)))
+  match resolve input o with
+  | Ok (m, e, v) =>
+      match encode_panic input e m v with
+      | Some _ => []
+      | None =>
+          let n := version_size v in
+          let data := cdata (encode input e m v) in
+          select_trace n (fst (place_data n (blank v) (structure_buffer data e v)))
+      end
   | _ => []
   end.
